@@ -65,22 +65,34 @@ def grads_hparams(case):
                                    num_batch_size_buckets=g['buckets'])
 
 
+def l2_half(params):
+  # 1/8 * |params|^2, dyadic
+  return 0.125 * sum(jnp.sum(jnp.square(v)) for v in jax.tree_util.tree_leaves(params))
+
+
+GRAD_REG = fedjax.grad(c01.per_example_loss, l2_half)
+
+
 def build(case, which):
   """Builds one of the algorithms on the jit backend."""
   hp = c01.hparams_of(case['hparams'])
+  reg = l2_half if case.get('reg') else None
   copt = c01.fj_optimizer(case['client_opt'])
   sopt = c01.fj_optimizer(case['server_opt'])
   with fedjax.for_each_client_backend(c01.backend_of(case['backend'])):
     if which == 'fedavg':
-      return fedjax.algorithms.fed_avg.federated_averaging(c01.GRAD[False], copt, sopt, hp)
+      # (with a regularizer: FedAvg on mean loss + regularizer)
+      return fedjax.algorithms.fed_avg.federated_averaging(
+          GRAD_REG if reg else c01.GRAD[False], copt, sopt, hp)
     if which == 'fedprox':
       return fed_prox_lib.fed_prox(per_example_loss, copt, sopt, hp,
                                    proximal_weight=case['mu'] / 8.0)
     if which == 'hyp1':
-      return hyp_lib.hyp_cluster(per_example_loss, copt, sopt, grads_hparams(case), hp)
+      return hyp_lib.hyp_cluster(per_example_loss, copt, sopt, grads_hparams(case), hp,
+                                 regularizer=reg)
     if which == 'mimelite':
       return mime_lite_lib.mime_lite(per_example_loss, copt, hp, grads_hparams(case),
-                                     server_learning_rate=1.0)
+                                     server_learning_rate=1.0, regularizer=reg)
     if which == 'mime':
       return mime_lib.mime(per_example_loss, copt, hp, grads_hparams(case),
                            server_learning_rate=2.0 ** -case['server_lr_exp'])
@@ -276,11 +288,15 @@ def case_strategy(draw, tier, relation):
         'seed': draw(st.integers(0, 2 ** 16))}
   if relation == 'apfl':
     case['coefficient'] = draw(st.integers(0, 8))
+  if relation in ('hyp1', 'mimelite'):
+    # both take a regularizer: the counterpart is FedAvg on loss + regularizer
+    case['reg'] = draw(st.booleans())
   return case
 
 
 def labels(case):
-  return ['relation:' + case['relation']] + c01.labels(case)
+  return (['relation:' + case['relation']] + (['regularizer'] if case.get('reg') else []) +
+          c01.labels(case))
 
 
 def nontrivial(case, ls):
